@@ -12,6 +12,9 @@ import (
 	"golang.org/x/tools/go/ssa"
 )
 
+// Tokens bounds the number of paths executing at once across all explorers.
+var Tokens chan struct{}
+
 type workItem struct {
 	prefix []int
 	model  Model
@@ -342,6 +345,9 @@ func (ex *Explorer) Run(fn *ssa.Function) *HarnessResult {
 				ex.active++
 				ex.paths++
 				ex.mu.Unlock()
+				if Tokens != nil {
+					Tokens <- struct{}{}
+				}
 				c := ex.newCtx(item, solver, &st)
 				if len(item.prefix) == 0 {
 					c.model = Model{}
@@ -350,6 +356,9 @@ func (ex *Explorer) Run(fn *ssa.Function) *HarnessResult {
 				}
 				st.Paths++
 				ex.runPath(c, fn)
+				if Tokens != nil {
+					<-Tokens
+				}
 				st.Steps += c.steps
 				ex.mu.Lock()
 				for k := range c.reached {
@@ -489,16 +498,16 @@ func (ex *Explorer) handlePanic(c *Ctx, p *goPanic) {
 	if len(regions) == 0 {
 		m := c.model
 		if m == nil {
-			_, m, _ = c.S.Check(c.pc, true)
+			_, m, _ = c.S.CheckPC(c.pc, nil, true)
 		}
 		ex.noteViolation(c, key, "Go panic: "+p.Msg, m)
 		return
 	}
-	q := append([]*Term{}, c.pc...)
+	var q []*Term
 	for _, r := range regions {
 		q = append(q, Not(r.term))
 	}
-	res, m, _ := c.S.Check(q, true)
+	res, m, _ := c.S.CheckPC(c.pc, q, true)
 	if res == Sat {
 		ex.noteViolation(c, key, "Go panic: "+p.Msg, m)
 		return
@@ -507,8 +516,7 @@ func (ex *Explorer) handlePanic(c *Ctx, p *goPanic) {
 		ex.noteInconclusive("panic region check unknown for " + key)
 	}
 	for _, r := range regions {
-		q2 := append(append([]*Term{}, c.pc...), r.term)
-		r2, m2, _ := c.S.Check(q2, true)
+		r2, m2, _ := c.S.CheckPC(c.pc, []*Term{r.term}, true)
 		if r2 == Sat {
 			ex.noteKnown(r.kf, c, m2)
 		}
